@@ -65,6 +65,9 @@ MUTANTS = [
     ("C05", "RemoveNonfieldBackreferences", "line/common/disconnection.py", "            not ref.items:", "            ref.items:"),
     ("C05", "RemoveNonfieldBackreferences", "line/common/disconnection.py", "        self._remove_backreference(ref, k)\n        if isinstance(ref, gfapy.line.group.Group)", "        if isinstance(ref, gfapy.line.group.Group)"),
     ("C05", "RemoveNonfieldBackreferences", "line/common/disconnection.py", "        if isinstance(ref, gfapy.line.group.Group) and ref.is_connected() and \\", "        if isinstance(ref, gfapy.line.group.Group) and \\"),
+    ("C12", "SearchLink", "lines/finders.py", "          l.is_compatible(orseg1, orseg2, cigar, True):\n        return l", "          l.is_compatible(orseg1, orseg2, cigar, False):\n        return l"),
+    ("C12", "SearchLink", "lines/finders.py", "      if isinstance(l, gfapy.line.edge.Link) and \\\n          l.is_compatible(orseg1, orseg2, cigar, True):\n        return l\n    return None", "      if isinstance(l, gfapy.line.edge.Link) and \\\n          l.is_compatible(orseg1, orseg2, cigar, True):\n        found = l\n    return None"),
+    ("C12", "SearchLink", "lines/finders.py", "      if isinstance(l, gfapy.line.edge.Link) and \\\n          l.is_compatible(orseg1, orseg2, cigar, True):", "      if not isinstance(l, gfapy.line.edge.Link) or \\\n          l.is_compatible(orseg1, orseg2, cigar, True):"),
     ("C10", "TakeBackAssignedIds", "gfa.py", "    self._max_int_name = max_int_name", "    pass"),
     ("C10", "TakeBackAssignedIds", "gfa.py", "    for rt in records:\n      self._records[rt] = records[rt]", "    for rt in records:\n      self._records[rt] = records[\"L\"]"),
     ("C10", "TakeBackAssignedIds", "gfa.py", '      if l.is_connected() and l.get("ID") is not None:', '      if l.get("ID") is not None:'),
